@@ -14,7 +14,7 @@ Init == l = 1 /\ bad = <<>> /\ work = {} /\ sub = NoSubst /\ failed = FALSE
 TStep ==
   /\ l <= Len(Trace)
   /\ LET t == Trace[l]
-         p == PrincipalOfAst(t.fn.ast)                 \* constraints by the typing rules of FoInferGen
+         p == PrincipalWithDeps(t.fn)                   \* constraints by the typing rules of FoInferGen (the functions it calls are inferred and generalised first)
          ok == /\ t.status = "ok"
                /\ p.ok
                /\ t.ntparams = p.ntparams          \* type parameters T0.. exactly for the undetermined types
